@@ -7,6 +7,15 @@ trip and locate their subjects by role:
   (`C2Profile.as_text` if it still does; temporaries, a module-level reconstructor, positional or keyword arguments do
   not matter); the *reader* is the function that assigns a `.parse(...)` result to a `.tree` attribute
   (`C2Profile.from_text`);
+* the *parser object* both use is identified by the module-level NAME it is bound to (followed through `ALIAS = NAME`):
+  a name that neither function rebinds and all of whose bindings in the module's own scope are lark `Lark(...)` /
+  `Lark.open(...)` / `Lark.open_from_package(...)` constructions - wherever the binding stands (a plain statement, inside
+  `with open(...) as fh:`, under `try` / `if`) and whichever of these constructors is used (`_module_bindings`; function
+  and class bodies are other scopes, a `global NAME` in a function counts as a binding the rule cannot follow).  Renderer
+  and reader must use the same name.  A module-level name bound to anything else (a loader function's result ...) ->
+  the parser object is not located: undecided, unless another condition of the same obligation (source text handed to
+  `parse` unchanged, own tree, reconstruction returned as it is) is violated.  A parser that is not a module-level name
+  (built inside the function) is located and is not the module's parser: violated;
 * the *post-processor* is whatever callable is handed to that call as `postproc` (a nested function, a module-level
   function, a method, a lambda, a `functools.partial`) - not a function of a particular name;
 * token preservation by the post-processor is an inductive argument over ONE arbitrary iteration of its loop over the
@@ -50,8 +59,9 @@ Technique (numbers: RULES_GUIDE "What counts as static here", ALLOWED 1-6)
       keyword sequences of each group); trusted: lark's TreeMatcher merge rule.
   R2  6 (terminal table: kind and name of every used terminal, the %ignore set) + 1/6 (constant keyword arguments of the
       Lark.open call read from the AST).
-  R3  1 (locating renderer / reader / post-processor by role: resolved callees, argument binding of the lark API,
-      single-definition substitution); 3 (path-wise value flow with symbolic terms; the loop over the stream and every
+  R3  1 (locating renderer / reader / post-processor / parser object by role: resolved callees, argument binding of the
+      lark API, single-definition substitution, the binding sites of a module-level name in the module's own scope);
+      3 (path-wise value flow with symbolic terms; the loop over the stream and every
       inner loop analysed once with symbolic loop-carried values; structural / polynomial-normal-form comparison of
       segment bounds; argument binding into package helpers, lambda, functools.partial); 2 (both outcomes of a test are
       followed unless the facts of the path decide it; facts added per outcome); 4 (small abstract domains: integer
@@ -114,6 +124,8 @@ def run(ctx):
         "mutator calls, item stores / deletes and `.children` / `.data` stores."
     )
     rep.not_decided = ["text equality for all sentences of the language", "whitespace handling by the lexer",
+                       "R3: which parser object a module-level name denotes when it is not bound (only) to lark `Lark(...)` / `Lark.open(...)` constructions (result of a loader function, "
+                       "rebinding through `global`): undecided",
                        "post-processors of another shape than `buffer the items of a line, write the line out on a terminator` (several buffers, a pipeline of generators, "
                        "zip/comprehension based emission, try/with/while forms): undecided, never violated",
                        "feasibility of a path whose branch tests the analysis treats as opaque (membership of a constant in the buffer, predicates on the item text): both outcomes are followed",
@@ -827,6 +839,10 @@ class _Flow:
             elif name in mod.consts:
                 self.static_cache[key] = _Unk(f"`{name}` is defined in terms of itself")
                 v = self.static_value(None, mod.consts[name], mod)
+            elif len(_module_bindings(mod).get(name, ())) == 1 and _module_bindings(mod)[name][0] is not None:
+                # bound once, by an assignment nested in a module-level `with` / `try` / `if`
+                self.static_cache[key] = _Unk(f"`{name}` is defined in terms of itself")
+                v = self.static_value(None, _module_bindings(mod)[name][0], mod)
             else:
                 sym = self.ctx.rs.lookup(mod.name, name)
                 if sym is not None and sym.kind == "external":
@@ -2421,13 +2437,125 @@ def _inl(f: Func, e):
     return strip_cast(inline(f.node, e))
 
 
+_MODULE_BINDINGS = {}
+_SCOPES = (ast.FunctionDef, ast.AsyncFunctionDef, ast.ClassDef, ast.Lambda)
+
+
+def _module_bindings(mod):
+    """name -> [value expression | None] for EVERY binding site of the name in the module's own scope: the statements of
+    the module body and of the compound statements nested in it (`with`, `if`, `try`, `for`, `while`, `match` - a parser
+    built inside `with open(...) as fh:` or under a `try` is as much a module-level object as one built by a plain
+    assignment), not those of function / class bodies.  A value expression for `NAME = value` (also chained and annotated
+    assignments, `:=`); None for every other way of binding (with/for/except targets, unpacking, augmented assignment,
+    import, def, class, del, a `global NAME` declaration in a function of the module)."""
+    key = id(mod.tree)
+    hit = _MODULE_BINDINGS.get(key)
+    if hit is not None and hit[0] is mod.tree:
+        return hit[1]
+    out = defaultdict(list)
+
+    def target(t, value):
+        if isinstance(t, ast.Name):
+            out[t.id].append(value)
+        elif isinstance(t, (ast.Tuple, ast.List)):
+            for x in t.elts:
+                target(x, None)
+        elif isinstance(t, ast.Starred):
+            target(t.value, None)
+
+    def expr(e):
+        todo = [e]
+        while todo:
+            n = todo.pop()
+            if isinstance(n, _SCOPES):
+                continue
+            if isinstance(n, ast.NamedExpr):
+                target(n.target, n.value)
+            todo.extend(ast.iter_child_nodes(n))
+
+    def visit(body):
+        for st in body:
+            if isinstance(st, (ast.FunctionDef, ast.AsyncFunctionDef, ast.ClassDef)):
+                out[st.name].append(None)
+                for d in st.decorator_list:
+                    expr(d)
+                continue
+            if isinstance(st, ast.Assign):
+                for t in st.targets:
+                    target(t, st.value)
+            elif isinstance(st, ast.AnnAssign):
+                if st.value is not None:
+                    target(st.target, st.value)
+            elif isinstance(st, ast.AugAssign):
+                target(st.target, None)
+            elif isinstance(st, (ast.Import, ast.ImportFrom)):
+                for a in st.names:
+                    out[(a.asname or a.name).split(".")[0]].append(None)
+            elif isinstance(st, ast.Delete):
+                for t in st.targets:
+                    target(t, None)
+            elif isinstance(st, (ast.For, ast.AsyncFor)):
+                target(st.target, None)
+            elif isinstance(st, (ast.With, ast.AsyncWith)):
+                for it in st.items:
+                    if it.optional_vars is not None:
+                        target(it.optional_vars, None)
+            elif isinstance(st, ast.Try) or type(st).__name__ == "TryStar":
+                for h in st.handlers:
+                    if h.name:
+                        out[h.name].append(None)
+            elif type(st).__name__ == "Match":
+                for case in st.cases:
+                    for n in ast.walk(case.pattern):
+                        nm = getattr(n, "name", None) if type(n).__name__ in ("MatchAs", "MatchStar") else getattr(n, "rest", None) if type(n).__name__ == "MatchMapping" else None
+                        if nm:
+                            out[nm].append(None)
+            for _field, val in ast.iter_fields(st):
+                vals = val if isinstance(val, list) else [val]
+                if vals and all(isinstance(x, ast.stmt) for x in vals):
+                    visit(vals)
+                else:
+                    for x in vals:
+                        if isinstance(x, ast.expr):
+                            expr(x)
+                        elif isinstance(x, ast.excepthandler):
+                            visit(x.body)
+                        elif type(x).__name__ == "match_case":
+                            visit(x.body)
+                        elif isinstance(x, ast.withitem):
+                            expr(x.context_expr)
+
+    visit(mod.tree.body)
+    for n in ast.walk(mod.tree):
+        if isinstance(n, ast.Global):
+            for nm in n.names:
+                out[nm].append(None)
+    out = dict(out)
+    _MODULE_BINDINGS[key] = (mod.tree, out)
+    return out
+
+
+def _is_module_name(f: Func, e) -> bool:
+    """e is a name that function f reads from the module's scope (not a parameter / local of f or of an enclosing function)."""
+    if not isinstance(e, ast.Name) or e.id not in _module_bindings(f.module):
+        return False
+    p = f
+    while p is not None:
+        if p.node is not None and not isinstance(p.node, ast.Lambda) and (assignments_to(p.node, e.id) or e.id in params(p.node)):
+            return False
+        p = p.parent
+    return True
+
+
 def _module_value(f: Func, e):
-    """A name bound once at module level -> its value expression (else e)."""
+    """A name bound exactly once in the module's scope, by an assignment -> its value expression (else e)."""
     for _ in range(4):
-        if isinstance(e, ast.Name) and e.id in f.module.consts and not assignments_to(f.node, e.id) and e.id not in params(f.node):
-            e = f.module.consts[e.id]
-        else:
+        if not _is_module_name(f, e):
             break
+        sites = _module_bindings(f.module)[e.id]
+        if len(sites) != 1 or sites[0] is None:
+            break
+        e = sites[0]
     return e
 
 
@@ -2457,18 +2585,38 @@ def _lark_arg(call: ast.Call, idx: int, name: str):
 
 def _parser_identity(ctx, f: Func, e):
     """A stable identity for `the parser object` an expression denotes: the module-level name bound to a Lark instance."""
+    return _parser_binding(ctx, f, e)[0]
+
+
+def _is_lark_parser_call(ctx, f: Func, v) -> bool:
+    """`Lark(...)`, `Lark.open(...)`, `Lark.open_from_package(...)` of the lark library (resolved through the imports)."""
+    if isinstance(v, ast.Call):
+        n = _external_name(ctx, f, v) or ""
+        return n.startswith("lark") and ".Lark" in "." + n
+    return False
+
+
+def _parser_binding(ctx, f: Func, e):
+    """(identity, None) when the expression denotes a module-level name all of whose bindings (wherever they stand in the
+    module's own scope: plain statement, `with`, `try`, `if` ...) are lark `Lark(...)` / `Lark.open(...)` constructions -
+    the identity is that name, followed through `ALIAS = NAME` bindings; (None, reason) when it denotes a module-level
+    name whose bindings the rule cannot see as such a construction (the parser object cannot be located: undecided);
+    (None, None) when it is not a module-level name at all (a parser of the function's own)."""
     e = _inl(f, e)
-    if isinstance(e, ast.Name) and e.id in f.module.consts and not assignments_to(f.node, e.id) and e.id not in params(f.node):
-        v = f.module.consts[e.id]
-        seen = {e.id}
-        while isinstance(v, ast.Name) and v.id in f.module.consts and v.id not in seen:
-            seen.add(v.id)
-            e, v = v, f.module.consts[v.id]
-        if isinstance(v, ast.Call):
-            n = _external_name(ctx, f, v) or ""
-            if n.startswith("lark") and ".Lark" in "." + n:
-                return e.id
-    return None
+    if not _is_module_name(f, e):
+        return None, None
+    bindings = _module_bindings(f.module)
+    seen = set()
+    while True:
+        seen.add(e.id)
+        sites = bindings.get(e.id, [])
+        if len(sites) == 1 and isinstance(sites[0], ast.Name) and sites[0].id in bindings and sites[0].id not in seen:
+            e = sites[0]
+            continue
+        if sites and all(_is_lark_parser_call(ctx, f, v) for v in sites):
+            return e.id, None
+        shown = ", ".join(sorted({src(v)[:60] if v is not None else "<bound by another statement form>" for v in sites}))
+        return None, f"the module-level name `{e.id}` is bound to {shown}: not (only) a lark `Lark(...)` construction the rule can follow, so which parser object it denotes is not located"
 
 
 
@@ -2585,10 +2733,13 @@ def r3(ctx, g=None):
         if not rets:
             problems.append(f"{f.qualname} has no return statement")
         pid_from = None
+        unlocated = []
         for c, mk in calls:
             parser = _lark_arg(mk, 0, "parser")
-            pid = _parser_identity(ctx, f, parser) if parser is not None else None
-            if parser is None or pid is None:
+            pid, unl = _parser_binding(ctx, f, parser) if parser is not None else (None, None)
+            if pid is None and unl:
+                unlocated.append(unl)
+            elif parser is None or pid is None:
                 problems.append(f"Reconstructor is built from {src(parser) if parser is not None else None}, not from the module's Lark parser")
             else:
                 pid_from = pid
@@ -2600,7 +2751,9 @@ def r3(ctx, g=None):
                 problems.append(f"reconstructs {src(tree) if tree is not None else None}, not the profile's own tree")
             elif dotted(tv) != f"{self_name}.tree":
                 wrapped.append(src(tree))
-        if wrapped and not problems:
+        if unlocated and not problems:
+            ctx.undecided("R3", "AGREE", f, "return Reconstructor(parser).reconstruct(self.tree, postproc)", unlocated[0])
+        elif wrapped and not problems:
             ctx.undecided("R3", "AGREE", f, "return Reconstructor(parser).reconstruct(self.tree, postproc)", f"the tree handed to reconstruct is derived from the profile's tree (`{wrapped[0]}`); whether it is the same tree is not decided")
         else:
             ctx.ob("R3", "AGREE", f, "return Reconstructor(parser).reconstruct(self.tree, postproc)", not problems,
@@ -2610,15 +2763,21 @@ def r3(ctx, g=None):
         where = mod.funcs.get("C2Profile.from_text") or mod.relpath
         ctx.undecided("R3", "AGREE", where, "profile.tree = parser.parse(source)", "no function of c2profile.py assigns a `.parse(...)` result to a `.tree` attribute: the tree is attached by a different mechanism")
     for ft in readers:
-        problems = []
+        problems, unlocated = [], []
         for s, _t in _tree_stores(ft):
             v = _inl(ft, s.value)
             if isinstance(v, ast.Call) and isinstance(v.func, ast.Attribute) and v.func.attr == "parse":
-                pid = _parser_identity(ctx, ft, v.func.value)
+                pid, unl = _parser_binding(ctx, ft, v.func.value)
                 a = _lark_arg(v, 0, "text")
                 a = _inl(ft, a) if a is not None else None
                 src_ok = isinstance(a, ast.Name) and a.id in params(ft.node) and a.id not in ("self", "cls") and not assignments_to(ft.node, a.id)
-                if pid is None:
+                if pid is None and unl:
+                    unlocated.append(unl)
+                    if not src_ok:
+                        problems.append(f"parses {src(a) if a is not None else None}, not the source text it was given")
+                    elif len(v.args) + len(v.keywords) > 1:
+                        problems.append(f"passes extra arguments to parse(): {src(v)}")
+                elif pid is None:
                     problems.append(f"parses with {src(v.func.value)}, not the module's Lark parser")
                 elif recon_parsers and pid not in recon_parsers:
                     problems.append(f"parses with `{pid}` but the text is reconstructed with `{sorted(recon_parsers)[0]}`")
@@ -2628,6 +2787,9 @@ def r3(ctx, g=None):
                     problems.append(f"passes extra arguments to parse(): {src(v)}")
             else:
                 problems.append(f"stores {src(s.value)}")
+        if unlocated and not problems:
+            ctx.undecided("R3", "AGREE", ft, "profile.tree = parser.parse(source)", unlocated[0])
+            continue
         ctx.ob("R3", "AGREE", ft, "profile.tree = parser.parse(source)", not problems, f"{ft.qualname} stores the parser's tree of its source argument unmodified" if not problems else f"{ft.qualname}: " + "; ".join(problems))
 
 
